@@ -193,12 +193,23 @@ type env struct {
 func (e *env) ctxOf(n int) []byte { return append([]byte{}, e.ctxData[:n]...) }
 func (e *env) msgOf(n int) []byte { return append([]byte{}, e.msgData[:n]...) }
 
+// stateHook is false when the STROBE / Merlin state can no longer be read from this tree through the
+// reflection hooks (a refactoring changed the representation): state comparisons are then skipped (and the
+// run is reported as capped); everything observable through the public API is still compared.
+var stateHook = true
+
 func sameStrobe(t *merlin.Transcript, r *refstrobe.Transcript) bool {
+	if !stateHook || t == nil || merlin.VerifStrobe(t) == nil {
+		return true
+	}
 	st, pos, pb, cf, _, _ := strobe.VerifFields(merlin.VerifStrobe(t))
 	return *st == r.S.St && pos == r.S.Pos && pb == r.S.PosBegin && cf == r.S.CurFlags
 }
 
 func strobeSnapshot(t *merlin.Transcript) (out [204]byte) {
+	if !stateHook || t == nil || merlin.VerifStrobe(t) == nil {
+		return
+	}
 	st, pos, pb, cf, _, _ := strobe.VerifFields(merlin.VerifStrobe(t))
 	copy(out[:200], st[:])
 	out[200], out[201], out[202], out[203] = byte(pos), byte(pos>>8), byte(pb), cf
@@ -221,6 +232,10 @@ func run(c *mc.Ctx) {
 		}
 	}
 	genericStream = mc.Bytes(c.Seed, "c12-entropy", 0, 256)
+	if m := strobe.VerifMissing() + merlin.VerifMissing(); m != "" {
+		stateHook = false
+		c.Cap("the STROBE state can no longer be read from this tree (" + m + "): Merlin state comparisons skipped, public-API comparisons unaffected")
+	}
 	e := &env{c: c, srcs: sources(c.Thorough)}
 	e.ctxData = mc.Bytes(c.Seed, "c12-context", 0, 512)
 	e.msgData = mc.Bytes(c.Seed, "c12-message", 0, 512)
@@ -258,6 +273,7 @@ func run(c *mc.Ctx) {
 	e.decoderChecks()
 	e.batchChecks()
 	e.reuseChecks()
+	e.themeChecks()
 	for _, r := range e.requires {
 		c.Require(r.class, r.min)
 	}
@@ -483,7 +499,7 @@ func (e *env) signOne(w *mc.W, sc signCase, keyIdx int, rejections bool) {
 	if !bytes.Equal(sb, want.Sig) {
 		w.Fail("KeyPair.Sign/bytes", fmt.Sprintf("signature %x, schnorrkel definition gives %x | %s", sb, want.Sig, sc), cas)
 	}
-	if got := sr25519.VerifChallenge(k.pk, st, sig); !bytes.Equal(got, ref.LE32(refsr.Challenge(rt, k.rpk, sb[:32]))) {
+	if got, ok := implChallenge(k.pk, st, sig); ok && !bytes.Equal(got, ref.LE32(refsr.Challenge(rt, k.rpk, sb[:32]))) {
 		w.Fail("challenge", fmt.Sprintf("challenge scalar %x differs from the reference | %s", got, sc), cas)
 	}
 	if !k.pk.Verify(st, sig) {
